@@ -115,7 +115,7 @@ class Report:
                 return f
             if f.get("property") == self.prop and f.get("site") and f.get("site") == failure.get("site") \
                     and (f.get("signature") is None or f.get("signature") in json.dumps(failure.get("observed"), default=str, ensure_ascii=False)
-                         or f.get("signature") == failure.get("signature")):
+                         or f.get("signature") in str(failure.get("observed")) or f.get("signature") == failure.get("signature")):
                 return f
         return None
 
